@@ -12,8 +12,8 @@ CLAIMED = {
          'scheme routines abstracted to "log id + append particles"; bb_utils.cc list parser and the CLI are not reachable'),
  'C06': ('proof', 'For each of the 51 isotopes (and unknown names) and ALL int levels and modes: genbbsub init accepts exactly when the reference GENBBsub (rendered per name by f77c) accepts and sets Qbb/Zdbb/Adbb/EK/levelE/itrans02 identically; level table cross-checked with README Appendix 1; 4-beta, sign and mode-range rules asserted directly.', '3 C06',
          'the rendered GENBBsub initialisation is cross-checked against the compiled reference on all 51 x 24 x 24 configurations on every run (tools/refgenbb.py); gA routing, energy-window validation and label<->mode bijection (decay0_generator.cc, bb_utils.cc) are STL/iostream code: not covered'),
- 'C16': ('proof', 'Ground obligations on the real initialisers of the 6- and 8-point Gauss-Legendre rules of dgmlt1/dgmlt2: all moments up to degree 2n-1 to 1e-13, node antisymmetry, weight symmetry and positivity (bit-precise, no symbolic input).', '3 C16',
-         'only the tabulated rules; exactness on arbitrary intervals is the affine change of variable (assumed); QNG, Simpson, golden section, divided differences, rotate_zyz, Fermi function are not decided'),
+ 'C16': ('proof', 'Ground obligations on the real initialisers of the 6- and 8-point Gauss-Legendre rules of dgmlt1/dgmlt2: all moments up to degree 2n-1 to 1e-13, node antisymmetry, weight symmetry and positivity (bit-precise, no symbolic input). Summation loops of dgmlt1/dgmlt2 under a label-machine contract (contracts/safety.contract, c16 clauses; all NI <= 4096, both orders, all limits, no unwinding): panel k / node i is evaluated at the term R*t_i + RA + (k-1)*D and carried with the weight w_i of the same i.', '3 C16',
+         'tables and pairing only: the accumulation S += V*F and the final R*S are not decided; products are uninterpreted terms in the pairing clauses; exactness on arbitrary intervals is the affine change of variable (assumed); QNG, Simpson, golden section, divided differences, rotate_zyz, Fermi function are not decided'),
  'C03': ('proof', 'Every path of every *low cascade releases the tabulated level energy (nominal accounting defined by the L1/L2 emission contracts) within 3 keV: one CBMC query per routine over all deviates and all tabulated levels. decay0_bb under contract (contracts/bb.contract): for every legacy mode the emitted energies are computed from the budget e0 = Q - Elevel [- 4me | - EK - 2me | - 2EK] and the window [ebb1, ebb2] in the shape that the IEEE lemmas W0/W2/W9/W10/W11/W20 turn into the budget/window inequality.', '3 C03',
          'nominal vs booked energy gap bounded per call by the L2 lemmas; lemmas W2, W20 thorough-tier only (assumed otherwise); momentum -> kinetic energy is a real-arithmetic lemma (assumed); toallevents >= 1 / monotone in the window is NOT claimed (property of the numerical integrators)'),
  'C04': ('proof', 'For all deviates: every call-site precondition of every emission primitive holds in all 123 L3 routines (energies >= 0 and above thresholds, finite times), >= 1 and <= 60 particles per routine, decay time >= creation time, no exception, every cycle consumes a deviate.', '3 C04',
